@@ -1,0 +1,11 @@
+// SPDX-License-Identifier: GPL-3.0-or-later
+
+//go:build !verif
+// +build !verif
+
+package storage
+
+import "github.com/timshannon/badgerhold"
+
+// verifTuneOptions does nothing unless built with the verif tag.
+func verifTuneOptions(_ *badgerhold.Options) {}
